@@ -1609,7 +1609,9 @@ func (_neg) exec(vm *vm) {
 			result = -n
 		}
 	default:
-		f := operand.ToFloat()
+		// toNumeric() has already converted the operand: negate its result, never the operand
+		// again (that would call valueOf / toString a second time).
+		f := n.ToFloat()
 		if !math.IsNaN(f) {
 			f = -f
 		}
